@@ -371,6 +371,37 @@ def r17_15(run, model):
     run.floor("typer functions searching trait implementations across packages", n, 2)
 
 
+def r17_17(run, model):
+    run.rule("R17.17", "an ambiguous method name is rejected, not resolved by a side condition: the list of bound traits that declare the method "
+                       "(lookup_bound_trait_methods) is what the one / none / several decision is taken on - it is bound immutably, never "
+                       "filtered, truncated or reassigned between the lookup and that decision")
+    n = 0
+    for f in model.fns(CHECK):
+        if f.body is None or f.name == "lookup_bound_trait_methods":
+            continue
+        for l in S.find(f.body, "Local"):
+            init = l.get("init")
+            if init is None or l["pat"]["k"] != "PIdent" or not (init["k"] == "Call" and S.callee_name(init) == "lookup_bound_trait_methods"):
+                continue
+            n += 1
+            nm = l["pat"]["name"]
+            scope = next((a for a in S.Parents(f.body).ancestors(l) if a["k"] == "Block"), f.body)
+            changes = []
+            if l["pat"].get("mut"):
+                changes.append("declared `mut`")
+            for x in S.walk(scope):
+                if x["k"] == "Assign" and S.is_path(x["left"], nm):
+                    changes.append(f"reassigned at line {x['sp'][0]}")
+                if x["k"] == "MethodCall" and x["method"] in ("retain", "truncate", "pop", "remove", "dedup", "dedup_by_key", "sort", "drain", "clear") and S.is_path(x["recv"], nm):
+                    changes.append(f".{x['method']}(..) at line {x['sp'][0]}")
+            decided = [m_ for m_ in S.find(scope, "Match") if nm in S.idents(m_["scrut"]) and len(S.idents(m_["scrut"]) - {nm, "as_slice"}) == 0]
+            run.ob("R17.17", f"{f.name}|the candidates found through the bounds decide unchanged", not changes and bool(decided), site(CHECK, l["sp"]),
+                   ("; ".join(changes) if changes else "bound once") + f"; decisions taken directly on `{nm}`: {len(decided)}",
+                   witness="T: Render + Plot with Render::draw(Self) and Plot::draw(Self, int32): x.draw() and x.draw(3) are accepted, each silently "
+                           "bound to the trait whose parameter count fits; two `Ambiguous method draw` diagnostics are gone")
+    run.floor("lookups of a method among the bounds of a type parameter", n, 1)
+
+
 def r17_16(run, model):
     run.rule("R17.16", "a trait is known by its resolved name: every use of resolve_trait_name binds the resolved name it returns (no `.is_some()`, "
                        "no `_` in its place) - what the typer records for bounds, impls and dyn types is compared as text with resolved "
@@ -438,6 +469,7 @@ def run(run, model):
     run.try_rule(c03.r03_11, model)
     run.try_rule(r17_15, model)
     run.try_rule(r17_16, model)
+    run.try_rule(r17_17, model)
     # the call forms agree only if `Self` is instantiated under every type former of a trait method's signature (shared with C07 R07.2)
     from rules import c07 as _c07
     run.try_rule(_c07.r07_2, model, None, "C17")
